@@ -4,7 +4,9 @@ INIT FInit
 NEXT FNext
 CONSTRAINT Bound
 INVARIANT FTypeOK
+INVARIANT FRefusalStoresNothing
 INVARIANT FlagMeaning
 INVARIANT ReadExtendsOnly
 INVARIANT BytesExact
 CHECK_DEADLOCK FALSE
+ACTION_CONSTRAINT EmitRead
